@@ -253,6 +253,7 @@ Definition decimal_hook (f : decfmt) (r : drange) (cell : text) : hres :=
       match py_decimal t with
       | DpOut => HOut
       | DpBad => HReject
+      | DpOk DNan => HReject                     (* result.is_nan(): FieldValueError *)
       | DpOk v =>
           match decrange_validate_num r v with
           | None => HLeak
@@ -260,7 +261,7 @@ Definition decimal_hook (f : decfmt) (r : drange) (cell : text) : hres :=
           | Some true => match v with
                          | DFin d => HOk (VDec d)
                          | DInfinity neg => HOk (VInf neg)
-                         | DNan => HOut       (* a NaN that is accepted: only without any range item; not compared *)
+                         | DNan => HReject
                          end
           end
       end
